@@ -206,6 +206,12 @@ func credentialIsSecure(credential string) error {
 		return fmt.Errorf("cannot parse credential: jws.ParseString: %w", err)
 	}
 
+	// Require exactly one signature: a JWS in JSON serialization may carry several, of which the key set
+	// verification only needs one to succeed
+	if len(message.Signatures()) != 1 {
+		return fmt.Errorf("credential must contain exactly one signature")
+	}
+
 	// Inspect the signatures in the message
 	secureSignatureCount := 0
 	for _, signature := range message.Signatures() {
